@@ -10,6 +10,7 @@ import json, os, shutil, subprocess, sys, time
 
 ROOT = os.path.dirname(os.path.dirname(os.path.abspath(__file__)))
 SEEDED = os.path.join(ROOT, "seeded")
+REPO = os.environ.get("VERIF_REPO", "/repo")
 ENV = dict(os.environ, GOFLAGS="-mod=mod", GOPROXY="off", GOSUMDB="off", GOTOOLCHAIN="local")
 
 
@@ -47,7 +48,7 @@ def cmd_import(prop, letter):
         if os.path.exists(os.path.join(src, "notes.md")):
             shutil.copy(os.path.join(src, "notes.md"), os.path.join(d, "notes.md"))
         m = load_meta(mid)
-        m.update({"id": mid, "property": prop, "source": "independent sub-agent (second generation: asked for conjunctions of conditions) given only property texts and a scratch worktree"})
+        m.update({"id": mid, "property": prop, "source": "independent sub-agent (%s) given only property texts and a scratch worktree" % os.environ.get("GEN_DESC", "later generation: asked for conjunctions of conditions")})
         save_meta(mid, m)
         print("imported", mid)
         return
@@ -103,10 +104,10 @@ def cmd_run(mid, props):
     m = load_meta(mid)
     if not props:
         props = [m.get("property", mid.split("-")[0])]
-    rc, out = sh(["git", "-C", "/repo", "status", "--porcelain"])
+    rc, out = sh(["git", "-C", REPO, "status", "--porcelain"])
     if out.strip():
-        print("refusing: /repo is not clean:\n" + out); return 2
-    rc, out = sh(["git", "-C", "/repo", "apply", os.path.join(d, "patch.diff")])
+        print("refusing: %s is not clean:\n" % REPO + out); return 2
+    rc, out = sh(["git", "-C", REPO, "apply", os.path.join(d, "patch.diff")])
     if rc != 0:
         print("patch does not apply to /repo:", out); return 2
     results = {}
@@ -119,8 +120,8 @@ def cmd_run(mid, props):
             results[p] = {"exit": rc, "violation_lines": viol, "tail": out.splitlines()[-3:], "wall_s": round(time.time() - t0, 1)}
             print(mid, p, "exit=%d" % rc, viol[:1])
     finally:
-        sh(["git", "-C", "/repo", "checkout", "--", "."])
-        rc, out = sh(["git", "-C", "/repo", "status", "--porcelain"])
+        sh(["git", "-C", REPO, "checkout", "--", "."])
+        rc, out = sh(["git", "-C", REPO, "status", "--porcelain"])
         if out.strip():
             print("WARNING: /repo not clean after revert:\n" + out)
     # harvest the killing input into the corpus of the property (only stateful/kernel transcripts)
@@ -130,7 +131,7 @@ def cmd_run(mid, props):
                 rp = v.split("replay=")[1].split()[0]
                 rec = json.load(open(rp))
                 lines = rec.get("transcript") or []
-                if lines and p not in ("C11", "C18", "C19"):
+                if lines and p not in ("C11", "C18", "C19") and not lines[0].startswith(("goref ", "kpanic ", "gencrash ")):
                     cd = os.path.join(ROOT, "corpus", p)
                     os.makedirs(cd, exist_ok=True)
                     open(os.path.join(cd, mid + ".txt"), "w").write("\n".join(lines) + "\n")
